@@ -597,69 +597,129 @@ func rsLevelSwitch(w *World, info *types.Info, fromProto *FuncRef) {
 }
 
 // RU: comparator completeness of Report.Canonicalize (C36).
+//
+// The comparator handed to the sort in Canonicalize must mention every field of Diagnostic (and,
+// when it orders whole snippet lists, every field of snippet, of the embedded Span and of Edit):
+// two diagnostics differing only in an un-keyed field tie, slices.SortFunc leaves ties in an order
+// that is a function of the input order, so the canonical form would depend on the input order.
+// Field mentions are collected from the comparator expression and, transitively, from the bodies
+// of same-module functions it names (resolved through go/types, depth-bounded).
 func ruCanonicalize(w *World) {
 	w.rule("RU")
 	p := w.pkg(reportRel)
 	canon := w.fn(reportRel, "(*Report).Canonicalize")
 	diag := w.typ(reportRel, "Diagnostic")
-	if p == nil || canon == nil || diag == nil {
+	snip := w.typ(reportRel, "snippet")
+	edit := w.typ(reportRel, "Edit")
+	if p == nil || canon == nil || diag == nil || snip == nil || edit == nil {
 		return
 	}
 	info := p.TypesInfo
 	st := diag.Underlying().(*types.Struct)
-	keyed := map[string]bool{}
-	nKeys := 0
 	stable := false
+	var cmpArg ast.Expr
 	ast.Inspect(canon.Decl.Body, func(x ast.Node) bool {
 		c, ok := x.(*ast.CallExpr)
 		if !ok {
 			return true
 		}
 		f := callee(info, c)
-		if f == nil {
+		if f == nil || f.Pkg() == nil || f.Pkg().Path() != "slices" || !strings.HasPrefix(f.Name(), "Sort") || len(c.Args) != 2 {
 			return true
 		}
-		if f.Pkg() != nil && f.Pkg().Path() == "slices" && strings.HasPrefix(f.Name(), "SortStable") {
-			stable = true
+		if sel, ok := c.Args[0].(*ast.SelectorExpr); ok && sel.Sel.Name == "Diagnostics" && cmpArg == nil {
+			cmpArg = c.Args[1]
+			stable = strings.HasPrefix(f.Name(), "SortStable")
 		}
-		if f.Name() != "Key" || f.Pkg() == nil || !strings.HasSuffix(f.Pkg().Path(), "/cmpx") || len(c.Args) != 1 {
-			return true
-		}
-		fl, ok := c.Args[0].(*ast.FuncLit)
-		if !ok {
-			return true
-		}
-		nKeys++
-		ast.Inspect(fl.Body, func(y ast.Node) bool {
-			if sel, ok := y.(*ast.SelectorExpr); ok {
-				if v := selField(info, sel); v != nil {
-					for i := 0; i < st.NumFields(); i++ {
-						if st.Field(i) == v {
-							keyed[v.Name()] = true
-						}
-					}
+		return true
+	})
+	if cmpArg == nil {
+		w.undecided("Canonicalize|sort-call", canon.Decl.Pos(), "no slices.Sort*(r.Diagnostics, cmp) call found in Canonicalize")
+		return
+	}
+	// transitive field mentions
+	mentioned := map[*types.Var]bool{}
+	methods := map[string]bool{} // "Primary", "Path" … method names selected on Diagnostic/snippet/Span values
+	seenFn := map[*types.Func]bool{}
+	nKeys := 0
+	var visit func(n ast.Node, inf *types.Info, depth int)
+	visit = func(n ast.Node, inf *types.Info, depth int) {
+		ast.Inspect(n, func(y ast.Node) bool {
+			switch e := y.(type) {
+			case *ast.SelectorExpr:
+				if v := selField(inf, e); v != nil {
+					mentioned[v] = true
+					// a promoted field mention (s.Start through the embedded Span) is recorded as the field itself
 				}
-				if s := info.Selections[sel]; s != nil && s.Kind() == types.MethodVal && sel.Sel.Name == "Primary" {
-					keyed["snippets(primary span only)"] = true
+				if sl := inf.Selections[e]; sl != nil && sl.Kind() == types.MethodVal {
+					methods[e.Sel.Name] = true
+				}
+			case *ast.CallExpr:
+				if f := callee(inf, e); f != nil && f.Pkg() != nil && strings.HasSuffix(f.Pkg().Path(), "/cmpx") && (f.Name() == "Key" || f.Name() == "Map") {
+					nKeys++
+				}
+			case *ast.Ident:
+				if f, ok := inf.Uses[e].(*types.Func); ok && depth < 4 && !seenFn[f] && f.Type().(*types.Signature).Recv() == nil {
+					if d := w.decls[f]; d != nil && d.Body != nil && f.Pkg() == p.Types {
+						seenFn[f] = true
+						visit(d.Body, inf, depth+1)
+					}
 				}
 			}
 			return true
 		})
-		return true
-	})
+	}
+	visit(cmpArg, info, 0)
 	w.floor("sort keys of Canonicalize", nKeys, 6)
+	snippetsWhole := false
 	for i := 0; i < st.NumFields(); i++ {
 		f := st.Field(i)
 		key := "Canonicalize|unkeyed:" + f.Name()
 		switch {
-		case keyed[f.Name()]:
+		case f.Name() == "snippets":
+			if mentioned[f] {
+				snippetsWhole = true
+				w.ok("Canonicalize|keyed:snippets", f.Pos(), "the whole snippet list is handed to a comparator")
+			} else if methods["Primary"] {
+				w.ok("Canonicalize|keyed:snippets.primary", f.Pos(), "the primary snippet's file, start and end are sort keys")
+				w.violation("Canonicalize|unkeyed:snippets.secondary", f.Pos(), "secondary snippets (and snippet messages/edits) are not part of the sort key: diagnostics differing only there keep their input order, so the canonical order depends on the input order")
+			} else {
+				w.violation(key, f.Pos(), "Diagnostic.snippets is observable but not part of the sort key")
+			}
+		case mentioned[f]:
 			w.ok(key, f.Pos(), "field is a sort key")
-		case f.Name() == "snippets" && keyed["snippets(primary span only)"]:
-			w.ok("Canonicalize|keyed:snippets.primary", f.Pos(), "the primary snippet's file, start and end are sort keys")
-			w.violation("Canonicalize|unkeyed:snippets.secondary", f.Pos(), "secondary snippets (and snippet messages/edits) are not part of the sort key: diagnostics differing only there keep their input order, so the canonical order depends on the input order")
 		default:
 			w.violation(key, f.Pos(), "Diagnostic."+f.Name()+" is observable but not part of the sort key: two diagnostics that differ only in it tie, and ties keep (an unspecified function of) the input order, so Canonicalize is not order-insensitive")
 		}
+	}
+	if snippetsWhole {
+		check := func(owner string, t *types.Struct) {
+			for i := 0; i < t.NumFields(); i++ {
+				f := t.Field(i)
+				key := "Canonicalize|unkeyed:snippets." + owner + f.Name()
+				switch {
+				case f.Embedded():
+					// the embedded source.Span: Start and End by field, the file by File or Path()
+					if sp, ok := f.Type().Underlying().(*types.Struct); ok {
+						for j := 0; j < sp.NumFields(); j++ {
+							g := sp.Field(j)
+							k2 := "Canonicalize|unkeyed:snippets.Span." + g.Name()
+							if mentioned[g] || (g.Name() == "File" && methods["Path"]) {
+								w.ok(k2, g.Pos(), "span component is compared")
+							} else {
+								w.violation(k2, g.Pos(), "snippet span component "+g.Name()+" is not compared by the snippet ordering")
+							}
+						}
+					}
+				case mentioned[f]:
+					w.ok(key, f.Pos(), "compared by the snippet ordering")
+				default:
+					w.violation(key, f.Pos(), "snippet/edit field "+f.Name()+" is not compared by the snippet ordering: diagnostics differing only there tie")
+				}
+			}
+		}
+		check("", snip.Underlying().(*types.Struct))
+		check("Edit.", edit.Underlying().(*types.Struct))
 	}
 	if stable {
 		w.info("Canonicalize|sort", canon.Decl.Pos(), "uses a stable sort")
